@@ -264,6 +264,7 @@ pub fn c08(cx: &RunCtx) {
         return;
     }
     let kinds = [Kind::Value, Kind::WellFormedErr, Kind::MustErrOk];
+    crate::fam::sign_runs::<Cpx>(cx, &kinds);
     use BinOp::*;
     let mut bins: Vec<BinKind> = [Add, Sub, Mul, Div, Pow].iter().map(|b| BinKind::Op(*b)).collect();
     bins.push(BinKind::Call(Func::Pow));
